@@ -144,7 +144,7 @@ defjvp(anp.arccos, lambda g, ans, x: -g / anp.sqrt(1 - x**2))
 defjvp(anp.arctan, lambda g, ans, x: g / (1 + x**2))
 defjvp(anp.sinh, lambda g, ans, x: g * anp.cosh(x))
 defjvp(anp.cosh, lambda g, ans, x: g * anp.sinh(x))
-defjvp(anp.tanh, lambda g, ans, x: g / anp.cosh(x) ** 2)
+defjvp(anp.tanh, lambda g, ans, x: g * (1.0 + ans) * (1.0 - ans))  # sech(x)**2 without overflowing cosh(x)**2
 defjvp(anp.arcsinh, lambda g, ans, x: g / anp.sqrt(x**2 + 1))
 defjvp(anp.arccosh, lambda g, ans, x: g / (anp.sqrt(x - 1) * anp.sqrt(x + 1)))
 defjvp(anp.arctanh, lambda g, ans, x: g / (1 - x**2))
